@@ -51,6 +51,10 @@ pub fn alg_by_name(name: &str) -> Algorithm {
 }
 
 pub fn gen_own_case(rng: &mut Rng, thorough: bool, index: u64, sentinels: bool, kb_pct: u32) -> Value {
+    gen_own_case_min(rng, thorough, index, sentinels, kb_pct, 1)
+}
+
+pub fn gen_own_case_min(rng: &mut Rng, thorough: bool, index: u64, sentinels: bool, kb_pct: u32, min_marks: usize) -> Value {
     let cfg = GenCfg {
         max_depth: if thorough { 5 } else { 4 },
         max_fanout: if thorough { 5 } else { 4 },
@@ -59,7 +63,9 @@ pub fn gen_own_case(rng: &mut Rng, thorough: bool, index: u64, sentinels: bool, 
         reference: false,
         sentinels,
     };
-    let tree = gen_tree(rng, &cfg, 1);
+    let mut cfg = cfg;
+    if min_marks == 0 && rng.chance(1, 2) { cfg.mark_pct = 0; }
+    let tree = gen_tree(rng, &cfg, min_marks);
     let marks = tree.marks();
     let order = descendants_first_order(&marks, rng);
     let decoy: Value = match rng.below(4) {
